@@ -115,11 +115,10 @@ def check(rep, tier):
                         o = "config"          # always: some histories re-declare the configuration just before the last run
                     if o == "config":
                         # the configuration re-declared on the same object through the public configPath setter (other arrangement, or another vial
-                        # height): configuration of the NEXT run; the object model (model/FlakeObj.v) has no such step, so these histories are judged by
-                        # the fresh-object reference only
+                        # height): configuration of the NEXT run (SetConfig in model/FlakeObj.v: cached matrices and shelf vector dropped)
                         cur["over"] = rng.choice([{"snowfall_parameters": {"vial_arrangement": "hexagonal"}}, {"snowfall_parameters": {"vial_arrangement": "square"}},
                                                   {"snowfall_parameters": {"vial_arrangement": "square"}, "vial": {"geometry": {"height": 0.014}}}])
-                        S.configPath = impl.cfg_path(cur["over"]); ops.append(("configPath", cur["over"])); cur["model"] = False
+                        S.configPath = impl.cfg_path(cur["over"]); ops.append(("configPath", cur["over"])); coq_ops.append("SetConfig")
                         continue
                     if o == "seedv":
                         # the vial seed is configuration of the NEXT run (separate global numpy stream; not part of the object model)
